@@ -57,6 +57,9 @@ def run(ctx):
             mode = rng.below(8)
             cmds.append("RELAY %s %s %d %d %d %d %d" % (a, b, rng.range(2, 7) if not quick else rng.range(2, 4), 20 if quick else 50,
                                                          ctx.vseed * 1000 + i * 10 + sd, inj, mode))
+    # fixed cases in which a closing side's last message needs several writable wake-ups of the other leg to drain (injected
+    # short writes followed by 30 ms of EAGAIN): the drain must keep being driven until it is done
+    cmds += ["RELAY ux tls 2 50 1031 50 6", "RELAY uxf tcp 4 50 1072 50 7", "RELAY tcp tls 3 50 1135 50 4"]
     rc, res, err = relay.run(exe, cmds, ctx, timeout=3000)
     ctx.traces += 1
     if rc != 0 or len(res) != len(cmds):
